@@ -39,6 +39,61 @@ ITEMS = [
     Raw(file='spec.rs', tag='spec'),
     query('query_resource', 'resource', 'resource'),
     query('query_principal', 'principal', 'principal'),
+    Fn(API, 'impl PolicySet > fn query_action', name='PolicySet::query_action', wrap=W,
+       sig_rewrites=[(r"impl Iterator<Item = \(&'a EntityUid, Option<Decision>\)>", "VxIter<(&'a EntityUid, Option<Decision>)>", 1)],
+       ensures=[('exact', '''match r {
+            // every candidate action whose partial request is valid and whose TPE decision is not a definite Deny is returned, with that
+            // decision; nothing else is returned (with tpe_sound: no allowed action is omitted, none is labelled Allow that is not)
+            Ok(it) => (forall|i: int| 0 <= i < request.spec_candidates().len() && request.spec_partial_request(#[trigger] request.spec_candidates()[i]) is Some
+                    && spec_tpe_decision(*self, request.spec_partial_request(request.spec_candidates()[i])->Some_0, *entities) != Some(Decision::Deny)
+                    ==> exists|k: int| 0 <= k < it.items().len() && (#[trigger] it.items()[k]).0.spec_core() == request.spec_candidates()[i]
+                        && it.items()[k].1 == spec_tpe_decision(*self, request.spec_partial_request(request.spec_candidates()[i])->Some_0, *entities))
+                && (forall|k: int| 0 <= k < it.items().len() ==> exists|i: int| 0 <= i < request.spec_candidates().len() && #[trigger] request.spec_candidates()[i] == (#[trigger] it.items()[k]).0.spec_core()
+                        && request.spec_partial_request(request.spec_candidates()[i]) is Some
+                        && it.items()[k].1 == spec_tpe_decision(*self, request.spec_partial_request(request.spec_candidates()[i])->Some_0, *entities) && it.items()[k].1 != Some(Decision::Deny)),
+            Err(_) => true,
+        }''')],
+       rewrites=[
+           (r'request\s*\.schema\s*\.0\s*\.actions_for_principal_and_resource\(&request\.principal\.0\.ty, &request\.resource\.0\.ty\)', 'request.vx_candidate_actions()', 1),
+           (r'action\.clone\(\)\.into\(\)', 'vx_uid_from_core(action)', 1),
+           (r'RefCast::ref_cast\(action\)', 'vx_ref_cast(action)', 1),
+           (r'authorized_actions\.into_iter\(\)', 'vx_vec_into_iter(authorized_actions)', 1),
+           (r'let mut authorized_actions = Vec::new\(\);', "let mut authorized_actions: Vec<(&'a EntityUid, Option<Decision>)> = Vec::new();", 1),
+       ],
+       proof_tail='''proof {
+            let it = __vx_r->Ok_0;
+            assert(it.items() == authorized_actions@);
+            assert forall|i: int| 0 <= i < cands.len() && request.spec_partial_request(#[trigger] cands[i]) is Some
+                    && spec_tpe_decision(*self, request.spec_partial_request(cands[i])->Some_0, *entities) != Some(Decision::Deny)
+                    implies exists|k: int| 0 <= k < it.items().len() && (#[trigger] it.items()[k]).0.spec_core() == cands[i]
+                        && it.items()[k].1 == spec_tpe_decision(*self, request.spec_partial_request(cands[i])->Some_0, *entities) by {
+                let k = choose|k: int| 0 <= k < authorized_actions@.len() && (#[trigger] authorized_actions@[k]).0.spec_core() == cands[i]
+                        && authorized_actions@[k].1 == spec_tpe_decision(*self, request.spec_partial_request(cands[i])->Some_0, *entities);
+                assert(it.items()[k] == authorized_actions@[k]);
+            }
+        }''',
+       loops={1: Loop(iter_suffix='.vx_for()', name='it_1', proof_before='let ghost cands = request.spec_candidates();',
+           proof_start='let ghost old_v = authorized_actions@; let ghost idx = it_1.index@; proof { assert(*action == cands[idx]); }',
+           proof_end='''proof {
+                assert forall|k: int| 0 <= k < old_v.len() implies authorized_actions@[k] == old_v[k] by {}
+                assert forall|i: int| 0 <= i < idx && request.spec_partial_request(#[trigger] cands[i]) is Some
+                    && spec_tpe_decision(*self, request.spec_partial_request(cands[i])->Some_0, *entities) != Some(Decision::Deny)
+                    implies exists|k: int| 0 <= k < authorized_actions@.len() && (#[trigger] authorized_actions@[k]).0.spec_core() == cands[i]
+                        && authorized_actions@[k].1 == spec_tpe_decision(*self, request.spec_partial_request(cands[i])->Some_0, *entities) by {
+                    let k = choose|k: int| 0 <= k < old_v.len() && (#[trigger] old_v[k]).0.spec_core() == cands[i] && old_v[k].1 == spec_tpe_decision(*self, request.spec_partial_request(cands[i])->Some_0, *entities);
+                    assert(authorized_actions@[k] == old_v[k]);
+                }
+                if authorized_actions@.len() > old_v.len() { assert(authorized_actions@[old_v.len() as int].0.spec_core() == cands[idx]); }
+            }''', invariant=[
+           ('snapshot', 'it_1.snapshot@.remaining().len() == cands.len() && forall|j: int| 0 <= j < cands.len() ==> *(#[trigger] it_1.snapshot@.remaining()[j]) == cands[j]'),
+           ('kept', '''forall|i: int| 0 <= i < it_1.index@ && request.spec_partial_request(#[trigger] cands[i]) is Some
+                    && spec_tpe_decision(*self, request.spec_partial_request(cands[i])->Some_0, *entities) != Some(Decision::Deny)
+                    ==> exists|k: int| 0 <= k < authorized_actions@.len() && (#[trigger] authorized_actions@[k]).0.spec_core() == cands[i]
+                        && authorized_actions@[k].1 == spec_tpe_decision(*self, request.spec_partial_request(cands[i])->Some_0, *entities)'''),
+           ('only', '''forall|k: int| 0 <= k < authorized_actions@.len() ==> exists|i: int| 0 <= i < it_1.index@ && #[trigger] cands[i] == (#[trigger] authorized_actions@[k]).0.spec_core()
+                        && request.spec_partial_request(cands[i]) is Some
+                        && authorized_actions@[k].1 == spec_tpe_decision(*self, request.spec_partial_request(cands[i])->Some_0, *entities) && authorized_actions@[k].1 != Some(Decision::Deny)'''),
+       ])}),
 ]
 VERUS_ARGS = ['--multiple-errors', '5']
 CANARIES = ['PolicySet::query_resource']
